@@ -4,7 +4,7 @@
 # whole suite passes patched without the demo) and stores it as /verif/seeded/<ID>-<suffix>/ when all three hold.
 src="$1"; id="$2"; suf="$3"
 V=$(cd "$(dirname "$0")/.." && pwd)
-w=/tmp/confirm8/$id
+w=/tmp/confirm9/$id
 patch="$src/patch.diff"
 demo=$(ls "$src"/tests/demo_*.rs 2>/dev/null | head -1)
 [ -s "$patch" ] && [ -n "$demo" ] || { echo "$id: patch or demo missing"; exit 2; }
@@ -14,12 +14,12 @@ cp /repo/Cargo.lock "$w/" 2>/dev/null
 export CARGO_TARGET_DIR="$src/target"   # reuse the agent's build output (same sources up to the patch)
 cp "$demo" "$w/tests/demo.rs"
 cd "$w"
-cargo test --offline --test demo >/tmp/confirm8/$id.clean.log 2>&1; c=$?
+cargo test --offline --test demo >/tmp/confirm9/$id.clean.log 2>&1; c=$?
 git apply "$patch" || { echo "$id: patch does not apply"; exit 2; }
-cargo test --offline --test demo >/tmp/confirm8/$id.mut.log 2>&1; m=$?
+cargo test --offline --test demo >/tmp/confirm9/$id.mut.log 2>&1; m=$?
 rm tests/demo.rs
-cargo test --offline >/tmp/confirm8/$id.suite.log 2>&1; s=$?
-f=$(grep -c "^test result: FAILED" /tmp/confirm8/$id.suite.log)
+cargo test --offline >/tmp/confirm9/$id.suite.log 2>&1; s=$?
+f=$(grep -c "^test result: FAILED" /tmp/confirm9/$id.suite.log)
 echo "$id: demo_clean_exit=$c demo_mutated_exit=$m suite_exit=$s suite_result_lines_with_failures=$f"
 cd /
 git -C /repo worktree remove --force "$w"
